@@ -768,6 +768,15 @@ fn build_case(w: &Workload, wid: usize, r: &RunResult, hits_free: u64) -> Case {
     obs.push(r.alive as i64);
     obs.push(if r.alive { n_hits } else { last_point });
     obs.push(b("inv0")); obs.push(b("inv1") & b("cons1") & b("recomputed")); obs.push(b("again")); obs.push(b("api_ok"));
+    // the writer stays in service: behind the first batch that was reported failed no batch is reported failed
+    // (K1, repaired by d89b357: before, every batch behind a failed daily_log.write / COMMIT failed at BEGIN)
+    // (a failed batch: reported failed and nothing of it stored; an Err answer for a committed room mutation is class 1, not this)
+    let failed = |b: &Vec<usize>| b.iter().any(|i| ack[*i] == 2) && b.iter().all(|i| ack[*i] != 1 && (vis[*i] == 0 || matches!(flat[*i].1, Req::Compute)));
+    let in_service = match assigned.iter().position(|b| failed(b)) {
+        Some(p) => !assigned[p + 1..].iter().any(|b| failed(b)),
+        None => true,
+    };
+    obs.push(in_service as i64);
     obs.push(1); // the case has the shape the theorems assume (wf_case, evaluated by the model side)
     let mut init: Vec<String> = (0..w.n_setup).map(|i| format!("({}, {}, {})", gn(k_setup(i)), gn(k_setup(i)), gn(1))).collect();
     init.push(format!("({}, {}, {})", gn(20100), gn(20100), gn(1))); // the set-up's person with a pet
